@@ -356,9 +356,10 @@ def run_history(ctx, jax, fedjax, case, tmpdir):
     ok_deleted = not any(k[0] == 'deleted' for k in kinds)
     for (kind, field), (path, detail) in kinds.items():
       if kind == 'container':
-        ctx.check(False, f'purity/{sname}-input-{field}-mutated',
-                  f'{stage}: container {path} of the caller\'s input state changed its key set / length / type', {
-                      **w, 'path': path, 'detail': detail})
+        what = (f'entry {path} of a container of the caller\'s input state was replaced by another value'
+                if isinstance(detail, dict) and 'before' in detail else
+                f'container {path} of the caller\'s input state changed its key set / length / type')
+        ctx.check(False, f'purity/{sname}-input-{field}-mutated', f'{stage}: {what}', {**w, 'path': path, 'detail': detail})
       elif kind == 'changed':
         ctx.check(False, f'purity/{sname}-input-leaf-changed', f'{stage}: leaf {path} of the caller\'s input changed value',
                   {**w, 'path': path, 'detail': detail})
